@@ -212,6 +212,12 @@ class Obj:
     def getattr(self, k):
         if k in self._attrs:
             return self._attrs[k]
+        if self._attrs.get("_open") and not k.startswith("_"):
+            # an object of another class given only by the attributes the contract names: any further PUBLIC data attribute the code reads is an
+            # arbitrary positive real (mass, radius, ...), the same value at every read
+            v = sp.Symbol(f"{self._attrs.get('name', 'obj')}_{k}", positive=True)
+            self._attrs[k] = v
+            return v
         raise SymExError(f"object of class {getattr(self._cls, 'name', None)} has no attribute {k}")
 
     def has(self, k):
